@@ -278,18 +278,12 @@ func VP_C10_fat_read_fat12_L4() {
 		c10FatRead(c10Fat12Real, 4, 4, 13, 1, nil)
 	}
 }
-func VP_C10_fat_read_model_L1() { c10FatRead(c10FatModel, 1, 4, 9, 1, nil) }
-func VP_C10_fat_read_model_L3() { c10FatRead(c10FatModel, 3, 4, 9, 1, nil) }
-
-// real cluster sizes, cluster numbers up to 2^28; buffer bytes around the cluster boundaries compared.
-func VP_C10_fat_read_real_512() {
-	c10FatRead(c10FatModel, 3, 512, 2*512+1, 2, []int{0, 1, 510, 511, 512, 513, 1022, 1023, 1024})
-}
-func VP_C10_fat_read_real_32k() {
+func VP_C10_fat_read_model_L1() {
 	if vp.Thorough() {
-		c10FatRead(c10FatModel, 3, 32768, 2*32768+1, 3, []int{0, 1, 32767, 32768, 32769, 65534, 65535, 65536})
+		c10FatRead(c10FatModel, 1, 4, 9, 1, nil)
 	}
 }
+func VP_C10_fat_read_model_L3() { c10FatRead(c10FatModel, 3, 4, 9, 1, nil) }
 
 // c10FatGeometry: arbitrary partition start, data-region start and 28-bit cluster number with a
 // real cluster size; a one-cluster file. Every device access must be at
